@@ -113,6 +113,10 @@ def build_ctor(spec):
             lg = light.AmbientLight('light%d' % li, (0.5, 0.5, 0.5))
         elif l == 'point':
             lg = light.PointLight('light%d' % li, (1, 1, 1), 1.0, 0.5, 0.25)
+        elif isinstance(l, list):
+            # ['point'|'spot', optional parameters with None for "left unspecified"]
+            cls = light.PointLight if l[0] == 'point' else light.SpotLight
+            lg = cls('light%d' % li, (1, 0.5, 1), *l[1:])
         else:
             lg = light.SpotLight('light%d' % li, (1, 1, 1), 1.0, 0.5, 0.25, 30.0, 2.0)
         doc.lights.append(lg)
